@@ -21,9 +21,9 @@ lemmas `live_eq`, `expiry_eq_deadline`), keyed by the two key families of `conns
 strings.  One event = one handler call (atomic); the clock is explicit (milliseconds) and shared: storage deadlines
 and the records' `ExpiresAt` are read off the same clock.
 
-A connection id is the triple (node it was accepted on, client that uses it, serial): connection ids are
-unique in the cluster, a connection lives on one node and is used by one client (C07 covers re-authentication
-under another id).
+A connection id is the triple (node it was accepted on, client that uses it, serial): a connection id names one
+node and one client (C07 covers re-authentication under another id); after `CloseConnection` the same id may be
+accepted again (a peer that brings its own connection id and comes back) — a new connection under an old name.
 
 `Variant` keeps the three defects found on the unchanged tree selectable; `repaired` is what the driver runs.
 `Shape` is what the configured backend hands back for a stored `*Info`.
@@ -211,7 +211,7 @@ def refreshConnection (P : Params) (now : Nat) (s : Store) (c : Conn) : Store :=
 /-! ## One node's SessionManager -/
 
 structure NodeSt where
-  streams : List Conn        -- streamMgr.streams: every id ever created (never removed)
+  streams : List Conn        -- streamMgr.streams: ids that have a stream (removed by CloseConnection of a connMap entry)
   conns : List Conn          -- SessionManager.connMap
   ctrl : List Conn           -- clientRegistry.connMap
   authed : List Conn         -- ControlConnection.Authenticated (ClientID set by the auth handler)
@@ -248,8 +248,13 @@ structure St where
   -- consumers in flight: (kind, node, client) ↦ did the node-local registry have a connection of the client
   pendingReq : FMap (ReqKind × Nat × Nat) Bool := FMap.empty
 
-def NodeSt.addConn (n : NodeSt) (c : Conn) : NodeSt := { n with conns := add c n.conns, streams := c :: n.streams }
-def NodeSt.dropConn (n : NodeSt) (c : Conn) : NodeSt := { n with conns := rm c n.conns }
+/-- `CreateConnection`: a fresh stream for the id. -/
+def NodeSt.addConn (n : NodeSt) (c : Conn) : NodeSt :=
+  { n with conns := add c n.conns, streams := c :: n.streams, dead := rm c n.dead }
+/-- `CloseConnection`: out of connMap; the stream leaves the StreamManager too when the connection was still in connMap
+(so the id may come back later). -/
+def NodeSt.dropConn (n : NodeSt) (c : Conn) : NodeSt :=
+  { n with conns := rm c n.conns, streams := if c ∈ n.conns then rm c n.streams else n.streams }
 /-- `RegisterControlConnection` of a connection not yet in the registry. -/
 def NodeSt.addCtrl (n : NodeSt) (c : Conn) : NodeSt := { n with ctrl := add c n.ctrl }
 /-- … and the auth handler accepted (`SetAuthenticated(true)`, `SetClientID`). -/
@@ -289,8 +294,8 @@ inductive Ev where
   | tick (dt : Nat)
   deriving DecidableEq, Repr
 
-/-- `CreateConnection` (limits not reached).  `streamMgr.CreateStream` refuses an id it has seen before
-(streams are never removed), so a connection id is never reused on a node. -/
+/-- `CreateConnection` (limits not reached).  `streamMgr.CreateStream` refuses an id that still has a stream; an id
+whose connection was closed (`CloseConnection` of a connMap entry removes the stream) may be used again. -/
 def createConnection (st : St) (c : Conn) : St :=
   if c ∈ (st.nodes c.node).streams then st else
   { st with nodes := upd st.nodes c.node ((st.nodes c.node).addConn c) }
